@@ -46,16 +46,15 @@ extern int mpt_outdata_reply(MPT_STRUCT(outdata) *out, size_t len, const void *h
 		len = mpt_message_read(&msg, sizeof(tmp) - ilen, tmp + ilen);
 		/* temporary reply limit exceeded */
 		if ((left = mpt_message_length(&msg))) {
-			len += ilen + left;
+			size_t total = ilen + len + left;
 			/* use temporary data in unused buffer segment */
-			if (!(ptr = mpt_array_append(&out->buf, len, 0))) {
+			if (!(ptr = mpt_array_append(&out->buf, total, 0))) {
 				return MPT_ERROR(MissingBuffer);
 			}
-			out->buf._buf->_used -= len;
-			if (ilen) {
-				memcpy(ptr, hdr, ilen);
-			}
-			len = mpt_message_read(&msg, len - ilen, ptr + ilen);
+			out->buf._buf->_used -= total;
+			/* id and start of message are in local buffer */
+			memcpy(ptr, tmp, ilen + len);
+			len += mpt_message_read(&msg, left, ptr + ilen + len);
 		}
 	}
 	ret = sendto(out->sock._id, ptr, ilen + len, 0, hdr, slen);
